@@ -79,6 +79,32 @@ class Dag:
         return self.policy_functions[n]
 
     def return_type(self, n):
+        t = self._return_type(n)
+        if t in (float, int, bool):
+            return t
+        # numpy.ndarray[T] annotations of whole-column rules / groupings
+        import typing
+        f = self.raw_funcs.get(n)
+        for src in (getattr(f, "__annotations__", {}).get("return") if f is not None else None,
+                    self.policy_functions[n].__annotations__.get("return") if n in self.policy_functions else None):
+            args = typing.get_args(src) if src is not None else ()
+            if args and args[0] in (float, int, bool):
+                return args[0]
+        k = self.kind(n)
+        if k == "timeconv":
+            return float
+        if k == "grouping":
+            return int
+        if k in ("agg_group", "agg_pid"):
+            # aggregation of a source without declared type: inherit the source's type (count -> int)
+            ps = [p for p in self.parents(n) if not p.endswith("_id") and not p.startswith("p_id")]
+            if not ps:
+                return int
+            st = self.return_type(ps[0])
+            return st
+        return None
+
+    def _return_type(self, n):
         if n in TYPES_INPUT_VARIABLES:
             return TYPES_INPUT_VARIABLES[n]
         f = self.raw_funcs.get(n)
